@@ -28,6 +28,7 @@ inline void run_pool(size_t nitems, int jobs, unsigned timeout_s, const std::fun
     while (running.size() < (size_t)jobs && next < nitems) {
       int pfd[2];
       if (pipe(pfd)) _exit(2);
+      fflush(nullptr); // nothing buffered may be inherited (a child that flushes would emit it a second time)
       pid_t p = fork();
       if (p == 0) {
         close(pfd[0]);
